@@ -73,6 +73,7 @@ def ctx_variants(params: List[Dict[str, Any]], flavour_async: bool) -> Iterator[
     yield {'params': params, 'flavour': vw, 'ctx': 'view'}
     yield {'params': params, 'flavour': vw, 'ctx': 'none'}
     yield {'params': params, 'flavour': vw, 'ctx': 'view', 'self_name': 'this'}
+    yield {'params': params, 'flavour': vw, 'ctx': 'none', 'static': True}
     # a client parameter whose name is contained in the context parameter's name ('t' in 'ctx')
     renamed = [({**p, 'name': 't'} if i == 0 and p['kind'] in ('PK', 'KO') else p) for i, p in enumerate(params)]
     if renamed != params:
@@ -176,7 +177,7 @@ class C04(Check):
         "at each valid positional position and as keyword-only; first positional with positional=True; class based view with and without "
         "constructor context) x dispatcher (sync: functions and views; async: coroutines and async views), crossed with params absent, all "
         "positional lists of length 0..5 and all named mappings over every subset of (parameter names + 'zz' + the context name); (b) "
-        "Hypothesis: signatures of up to 4 parameters with JSON-scalar defaults and pooled JSON values as arguments; views whose instance parameter is named 'this'; a client parameter whose name is contained in the context parameter's name; client parameters named like the library's own internals (signature, method, params, request, cls, kwargs ...); "
+        "Hypothesis: signatures of up to 4 parameters with JSON-scalar defaults and pooled JSON values as arguments; views whose instance parameter is named 'this'; public static methods of views; a client parameter whose name is contained in the context parameter's name; client parameters named like the library's own internals (signature, method, params, request, cls, kwargs ...); "
         "(c) histories of 6..14 short-lived dispatchers each serving a freshly created function that is dropped afterwards (every step judged like a single case). Oracle: a twin function "
         "with the same signature minus the context is called with the same list/mapping: TypeError => -32602 and empty execution log; "
         "otherwise success whose result is the scripted return value and one log entry whose arguments equal the twin's locals(); the "
@@ -193,7 +194,7 @@ class C04(Check):
     required_classes = ['kind/PO', 'kind/PK', 'kind/VP', 'kind/KO', 'kind/VK', 'ctx/none', 'ctx/name', 'ctx/positional', 'ctx/view',
                         'outcome/binds', 'outcome/does-not-bind', 'attack/context-name-supplied', 'default-exercised',
                         'flavour/func', 'flavour/coro', 'flavour/view', 'flavour/aview', 'ctx-value/empty-dict', 'ctx-value/falsy-object', 'ctx-value/none',
-                        'ephemeral/history', 'view/instance-parameter-not-named-self']
+                        'ephemeral/history', 'view/instance-parameter-not-named-self', 'view/staticmethod']
 
     # ---- generation ---------------------------------------------------------------------------------
 
@@ -349,6 +350,8 @@ class C04(Check):
         classes = [f"ctx/{m['ctx']}", f"flavour/{m['flavour']}", f"dispatcher/{spec['dispatcher']}"]
         if m.get('self_name', 'self') != 'self':
             classes.append('view/instance-parameter-not-named-self')
+        if m.get('static'):
+            classes.append('view/staticmethod')
         if has_ctx:
             classes.append(f"ctx-value/{spec.get('ctx_value', 'object')}")
         for q in m['params']:
